@@ -158,10 +158,17 @@ pub enum Op {
     Hover { on: bool, x: i8, y: i8, c: CellM },
     /// ... and caret colours / insert mode
     SetCaretState { fg: u8, bg: u8, insert: bool },
+    /// What the generators emit instead of StampLayerDown while the finding C08-stamp-layer-down is open: the stored
+    /// current-layer index is clamped first and the stamp is left out (nothing happens) exactly when the configuration is in
+    /// the finding's failing class (`stamp_known_class`); everything else is stamped. Witness files use plain StampLayerDown.
+    StampLayerDownSteered,
 }
 
 impl Op {
     pub fn kind(&self) -> String {
+        if matches!(self, Op::StampLayerDownSteered) {
+            return "StampLayerDown".into(); // same operation, same failure keys
+        }
         match serde_json::to_value(self) {
             Ok(serde_json::Value::String(s)) => s,
             Ok(serde_json::Value::Object(m)) => m.keys().next().cloned().unwrap_or_else(|| "?".into()),
@@ -243,8 +250,27 @@ pub fn clipboard_bytes(x: i32, y: i32, w: u32, h: u32, cells: &[CellM], tag: u8)
     data
 }
 
+/// The failing class of the open finding C08-stamp-layer-down on the pinned tree: stamp_layer_down snapshots and writes the
+/// rectangle `top.rect + base.offset` of the receiving layer (consistent with each other), and UndoLayerChange replaces the
+/// receiving layer's rows wholesale when the snapshot has the layer's size, ignoring the snapshot's position. Undo / redo
+/// are therefore wrong exactly when both layers have the same size and the snapshot does not start at (0,0), i.e.
+/// top.offset + base.offset != (0,0) (offsets as get_offset() reports them, pending preview included).
+/// None: there is no layer below the current one.
+pub fn stamp_known_class(st: &EditState) -> Option<bool> {
+    let cur = st.get_current_layer().ok()?;
+    if cur == 0 {
+        return None;
+    }
+    let layers = &st.get_buffer().layers;
+    let (top, base) = (&layers[cur], &layers[cur - 1]);
+    let start = top.get_offset() + base.get_offset();
+    Some(top.get_size() == base.get_size() && start != Position::new(0, 0))
+}
+
 #[derive(Default)]
 pub struct Interp {
+    /// stamps left out by StampLayerDownSteered
+    pub skipped_stamps: usize,
     /// ManuallyDrop: AtomicUndoGuard::drop locks the undo stack and panics when the lock is poisoned; if that happened while
     /// another panic unwinds through the harness the process would abort, so guards are only ever dropped explicitly
     pub guards: Vec<std::mem::ManuallyDrop<AtomicUndoGuard>>,
@@ -289,6 +315,17 @@ impl Interp {
             Op::MoveLayer { x, y } => (st.move_layer(Position::new(*x as i32, *y as i32)), Touch { layer: cur, cell_edit: false, reorder: false }),
             Op::SetLayerSize { l, w, h } => (st.set_layer_size(lref(*l, n), (*w as i32, *h as i32)), Touch { layer: Some(lref(*l, n)), cell_edit: false, reorder: false }),
             Op::StampLayerDown => (st.stamp_layer_down(), Touch { layer: cur.map(|c| c.saturating_sub(1)), cell_edit: true, reorder: false }),
+            Op::StampLayerDownSteered => {
+                if let Some(c) = cur {
+                    st.set_current_layer(c); // a stale stored index would make the operation pick another receiving layer
+                }
+                if stamp_known_class(st) == Some(true) {
+                    self.skipped_stamps += 1;
+                    (Ok(()), none)
+                } else {
+                    (st.stamp_layer_down(), Touch { layer: cur.map(|c| c.saturating_sub(1)), cell_edit: true, reorder: false })
+                }
+            }
             Op::RotateLayer => (st.rotate_layer(), on_cur),
             Op::MakeLayerTransparent => (st.make_layer_transparent(), on_cur),
             Op::UpdateLayerProperties { l, p } => (st.update_layer_properties(lref(*l, n), p.build()), Touch { layer: Some(lref(*l, n)), cell_edit: false, reorder: false }),
@@ -497,7 +534,7 @@ pub fn alphabet(flip_w: u32) -> Vec<(u32, &'static str, BoxedStrategy<Op>)> {
         (2, "AddFloatingLayer", j(Op::AddFloatingLayer)),
         (4, "MoveLayer", (-6i8..=14, -5i8..=10).prop_map(|(x, y)| Op::MoveLayer { x, y }).boxed()),
         (4, "SetLayerSize", (lr(), dim(), dimh()).prop_map(|(l, w, h)| Op::SetLayerSize { l, w, h }).boxed()),
-        (2, "StampLayerDown", j(Op::StampLayerDown)),
+        (3, "StampLayerDown", j(Op::StampLayerDown)),
         (3, "RotateLayer", j(Op::RotateLayer)),
         (3, "MakeLayerTransparent", j(Op::MakeLayerTransparent)),
         (3, "UpdateLayerProperties", (lr(), props_m()).prop_map(|(l, p)| Op::UpdateLayerProperties { l, p }).boxed()),
